@@ -187,6 +187,54 @@ fn c19_pool_overflow_step_deep() {
     assert!(pool.len() == CAP, "C19.pool.len_decreases_with_each_pop");
 }
 
+/// Flush next to a full array: the global list already holds a full array (256 blocks) and a worker-local queue holds two
+/// blocks; `flush_all` must hand every block over -- nothing may be dropped because an existing array has no room.
+#[kani::proof]
+#[kani::unwind(259)]
+#[kani::stub(mmtk::scheduler::worker::current_worker_ordinal, stub_ordinal)]
+#[kani::stub(core::hint::spin_loop, no_spin)]
+fn c19_pool_flush_next_to_full_array_deep() {
+    const CAP: usize = 256;
+    let g = Queue::<Block>::new();
+    let mut i = 0;
+    while i < CAP {
+        let r = unsafe { g.push_relaxed(nth_block(i)) };
+        assert!(r.is_ok(), "C19.queue.push_succeeds_below_capacity");
+        i += 1;
+    }
+    let l = Queue::<Block>::new();
+    let (x, y) = (any_block(), any_block());
+    kani::assume(x.start() > nth_block(CAP).start() && y.start() > x.start()); // two more, distinct from the held ones
+    unsafe {
+        assert!(l.push_relaxed(x).is_ok() && l.push_relaxed(y).is_ok(), "C19.queue.push_succeeds_below_capacity");
+    }
+    let pool = mmtk::verif_hooks::block_pool::pool_with_local_and_global_queue(l, g);
+    assert!(pool.len() == CAP + 2, "C19.pool.len_equals_blocks_held");
+    pool.flush_all();
+    assert!(pool.len() == CAP + 2, "C19.pool.flush_keeps_len");
+    let w: usize = kani::any();
+    kani::assume(w < CAP);
+    let (mut total, mut n_w, mut n_x, mut n_y) = (0usize, 0usize, 0usize, 0usize);
+    pool.iterate_blocks(&mut |b| {
+        total += 1;
+        if b == nth_block(w) {
+            n_w += 1;
+        }
+        if b == x {
+            n_x += 1;
+        }
+        if b == y {
+            n_y += 1;
+        }
+    });
+    assert!(total == CAP + 2, "C19.pool.flush_keeps_every_block");
+    assert!(n_w == 1 && n_x == 1 && n_y == 1, "C19.pool.iterate_yields_each_held_block_once");
+    // both arrays are global now: the first pops hand out held blocks and the count follows
+    let p = pool.pop();
+    assert!(p.is_some(), "C19.pool.every_held_block_is_poppable_after_flush_all");
+    assert!(pool.len() == CAP + 1, "C19.pool.len_decreases_with_each_pop");
+}
+
 /// Queue-capacity overflow: the 257th push by one worker moves the full local queue to the global list without loss.
 /// EXPERIMENT (not part of the check): CBMC needs more than 45 minutes for the 257 pushes and 257 pops.
 #[kani::proof]
